@@ -113,12 +113,12 @@ RoundTrip ==
 ChiMatches == phase = "eval" => chi = SumDecl(poles, xx, Len(poles))
 \* the unified form agrees with each kind's physical formula (independent of the coefficient map)
 UnifiedIsDeclared ==
-    \A i \in 1..Len(poles) : \A x \in Xs :
+    phase = "declared" => \A i \in 1..Len(poles) : \A x \in Xs :
         (DeclDenOK(poles[i], x) /\ DenOK(Unified(poles[i]), x)) => ChiU(Unified(poles[i]), x) = ChiDecl(poles[i], x)
 
 \* (c) padding
 PadZero == /\ phase # "declared" => \A i \in (Len(poles) + 1)..Slots : slots[i] = CZero
-           /\ phase \in { "rec", "eval" } => \A i \in (Len(poles) + 1)..Slots : rec[i] = UZero /\ \A x \in Xs : ChiU(rec[i], x) = CZ
+           /\ phase \in { "rec", "eval" } => \A i \in (Len(poles) + 1)..Slots : rec[i] = UZero /\ (phase = "rec" => \A x \in Xs : ChiU(rec[i], x) = CZ)
 
 \* C36: load of a pole on the grid's Nyquist mode, and the explicit coupled acceptance region
 NyquistLoad ==
